@@ -21,6 +21,13 @@ Inductive bty : Type := BMI | BInt | BBool | BStr.
    binding"; a definition in the domain over-rides the default).                        *)
 Inductive dom : Type := DA | DB.
 
+(* Three domains of the category Sized of the header (Print.sized_decls): a constant export
+   `limit` with a default VALUE and a function export `twice` whose default uses limit.
+     SzA overrides the constant (50); SzB overrides nothing; SzC overrides the function.
+   A use inside a default is looked up in % (langtype.tex:1524-1528), so twice()$SzA must see
+   SzA's own limit.                                                                       *)
+Inductive sdom : Type := SzA | SzB | SzC.
+
 (* numeric domain selector for the overloaded arithmetic of IntegerType *)
 Inductive nty : Type := NMI | NInt.
 
@@ -99,7 +106,9 @@ Inductive prim : Type :=
 | PBox (d : dom) (n : nty) | PUnbox (d : dom) (n : nty) | PBump (d : dom) (n : nty)
 | PTwice (d : dom) (n : nty) | PScale (d : dom) (n : nty)
 (* Array(T) (sal_array.as): new(n, x), #, a.i (0-based; unchecked in the shipped library) *)
-| PANew (b : bty) | PALen (b : bty) | PAGet (b : bty).
+| PANew (b : bty) | PALen (b : bty) | PAGet (b : bty)
+(* exports of Sized, selected from a domain: (limit$SzA), (twice()$SzA) *)
+| PSzLimit (d : sdom) | PSzTwice (d : sdom).
 
 (* parametrised macros (langmacs.tex:43-47 `Op Parms ==> Body`), declared in the header:
      DBL(x) ==> ((x) + (x));   SQR(x) ==> ((x) * (x));
